@@ -14,7 +14,7 @@ Acts ==
      \/ \E t \in TemplateIds, wv \in BOOLEAN, via \in Vias : AddVariable(t, wv, via) /\ Rec(<<"AddVariable", t, wv, via>>)
      \/ \E n \in Names : RemoveVariable(n) /\ Rec(<<"RemoveVariable", n>>)
      \/ \E n \in Names : RenameVariable(n) /\ Rec(<<"RenameVariable", n>>)
-     \/ \E keep \in SUBSET Names : FilterVariables(keep) /\ Rec(<<"FilterVariables", keep>>)
+     \/ \E keep \in SUBSET Names, mode \in FilterModes : FilterVariables(keep, mode) /\ Rec(<<"FilterVariables", keep, mode>>)
      \/ \E n \in Names, S \in SUBSET (1..3) : FilterDimensions(n, S) /\ Rec(<<"FilterDimensions", n, S>>)
      \/ \E n \in Names, b \in LBSet : SetLowerBound(n, b) /\ Rec(<<"SetLowerBound", n, b>>)
      \/ \E n \in Names, b \in UBSet : SetUpperBound(n, b) /\ Rec(<<"SetUpperBound", n, b>>)
